@@ -12,8 +12,13 @@ def run(ctx):
     cases = fsfam.standard_cases(ctx.tier == "thorough")
     bl = fsfam.baselines(ctx, drv, cases)
     fsfam.judge_traces(ctx, [(b["case"], b["lines"]) for b in bl], "syscalls")
+    # a failing fsync must not be reported as success: fail each fsync / directory open once and judge the
+    # system calls that really happened, together with the reported result, by the same invariants
+    n, jobs, per_case = fsfam.fault_runs(ctx, drv, bl, errnos=("EIO", "ENOSPC"), only_calls=("fsync", "fdatasync", "openat"))
+    fsfam.judge_traces(ctx, per_case, "faulted")
     cov = ctx.coverage
-    cov["traces_validated_against_impl"] = len(bl)
+    cov["fault_traces_validated"] = n
+    cov["traces_validated_against_impl"] = len(bl) + n
     cov["evaluations"] = sum(len(b["lines"]) for b in bl)
     cov["distinct_nontrivial"] = len({str(b["lines"]) for b in bl})
     cov["rule"] = ("one strace'd run per operation instance; TLC evaluates AckDurable / NoVisibleBeforeDurable over every "
